@@ -59,8 +59,10 @@ def mk_events(thorough):
     for sw in ALL_SW:
         evs.append(["run", list(sw), "fresh"])
     evs.append(["run", list(DEFAULT), "shadow"])
-    code_sw = ALL_SW if thorough else CODE_SW_QUICK
     for j in range(len(CODES)):
+        # the four cacheall x $XONSH_CACHE_EVERYTHING combinations for every code string; in the
+        # thorough tier all 16 combinations for code string 1 (the gating cannot depend on the text)
+        code_sw = ALL_SW if (thorough and j == 1) else CODE_SW_QUICK
         for mode in ("single", "exec"):
             for sw in code_sw:
                 evs.append(["code", j, mode, list(sw), "fresh"])
@@ -83,6 +85,7 @@ class Harness:
         self.m = None
         self.trail = []
         self._memo = {}
+        self._pending = None
         self.paths = {"S": self.rig.entry_path("script")}
         for j, c in enumerate(CODES):
             self.paths[f"C{j}"] = self.rig.entry_path("code", c)
@@ -90,6 +93,7 @@ class Harness:
 
     # ------------------------------------------------------------------ state (de)materialisation
     def _snapshot(self):
+        self._materialise()
         files = {}
         data = self.rig.data
         for dp, _dns, fns in os.walk(data):
@@ -100,6 +104,15 @@ class Harness:
         return (copy.deepcopy(self.m), files)
 
     def _restore(self, snap):
+        """Lazy: the snapshot is written to disk only when something looks at the state."""
+        self._pending = snap
+        self.m = snap[0]
+
+    def _materialise(self):
+        snap = self._pending
+        if snap is None:
+            return
+        self._pending = None
         m, files = snap
         rig = self.rig
         rig.wipe(rig.data)
@@ -121,6 +134,7 @@ class Harness:
         self.trail = []
 
     def canon(self):
+        self._materialise()
         m = self.m
         out = [m["body"], m["now"] - m["src"], m["ro"]]
         known = set()
@@ -146,6 +160,7 @@ class Harness:
         return out
 
     def menu(self):
+        self._materialise()
         m = self.m
         out = []
         for ev in self.events:
@@ -191,6 +206,7 @@ class Harness:
         return (st.st_ino, st.st_size, st.st_mtime_ns, st.st_mode)
 
     def _apply(self, ev, check):
+        self._materialise()
         m, rig = self.m, self.rig
         op = ev[0]
         if op == "edit":
@@ -251,6 +267,11 @@ class Harness:
             if core.entry_kind(p) != "dir":
                 rig.set_tick(p, m["now"])
             m["ent"][n] = {"tick": m["now"], "prov": prov if n == name else f"written-by-{name}", "ns": ns, "mode": mode}
+        for dp, _dns, fns in os.walk(rig.data):  # anything else the run wrote also happened "now"
+            for n in fns:
+                fp = os.path.join(dp, n)
+                if rig.get_tick(fp) is None:
+                    rig.set_tick(fp, m["now"])
         if not check:
             return []
         return self.judge(ev, kind, name, text, mode, sw, ns, pre_ent, pre_kind, obs)
@@ -325,6 +346,7 @@ class Harness:
         return viols
 
     def describe(self):
+        self._materialise()
         return {"model": self.m, "entries": {n: core.entry_kind(p) for n, p in self.paths.items()}}
 
 
